@@ -6,6 +6,7 @@
   joined / merged / live in a stays so in b.
 -/
 import Spydr.Eblif.LemmasParse
+import Spydr.Eblif.LemmasRender
 import Spydr.Eblif.LemmasInst
 import Spydr.Eblif.LemmasLive
 import Spydr.Eblif.ModelCompose
@@ -270,12 +271,31 @@ What is proved of `eblif_reader_spec`: the character layer -- reading the printe
 list is parsing and elaborating that token list (`lexB` undoes the printer; continuation and
 comment lines are the two theorems above) -- and, for every statement list, what the elaborator
 makes of it (`formal_actual`, `conn_merges`, `one_instance_per_stmt`, `names_latch_shape`,
-`blackbox_leaf`).  Missing: a Lean `render`/`denote` for the generator's designs and the parser
-half `parseB (tokens of a design) = its statements`.
+`blackbox_leaf`), and the parser half for instance statements (`parse_rendered_subckt`).  Missing: a
+Lean `render`/`denote` for whole designs and the parser half for `.names` (truth-table rows),
+`.latch`, `.conn`, headers and model boundaries.
 What is proved of `eblif_roundtrip`: the text `composeB` prints is read back as its token list
 (so the second read is `parseB (composeB o n) >>= elabB`).  Missing: that those tokens parse to
 statements equivalent to the ones `n` came from, and the resulting equality of instance kinds,
 data and pin sets.  Both missing halves are covered by the correspondence check only. -/
+
+/-- parser half of the reader specification for the statements `formal_actual` is about: the
+    lines `.subckt|.gate model f1=a1 ..` + `.cname/.attr/.param` lines (formals without `=`), met
+    while a model is open, parse to exactly `Stmt.subckt gate model [(f1,a1),..] info`, appended
+    to the model's body; nothing else of the parser state changes. -/
+theorem parse_rendered_subckt (s : PSt) (c : Model) (hc : s.cur = some c) (he : s.err = none)
+    (hm : s.mode = Mode.body ∨ s.mode = Mode.info ∨ s.mode = Mode.header)
+    (gate : Bool) (m : String) (conns : List (String × String)) (info : List InfoStmt)
+    (hcs : ∀ x ∈ conns, '=' ∉ x.1.toList) :
+    (subcktLines gate m conns info).foldl pstep s =
+      { s with cur := some { c with body := c.body ++ [Stmt.subckt gate m conns info] }, mode := Mode.info } :=
+  parse_subckt_lines s c hc he hm gate m conns info hcs
+
+example : (match parseLines ([[".model", "t"], [".inputs", "a"]] ++
+      subcktLines false "B" [("I[1]", "a"), ("O", "y")] [InfoStmt.cname "u1", InfoStmt.param "INIT" "01"] ++ [[".end"]]) with
+    | Except.ok a => a.models.map (·.body)
+    | _ => []) = [[Stmt.subckt false "B" [("I[1]", "a"), ("O", "y")] [InfoStmt.cname "u1", InfoStmt.param "INIT" "01"]]] := by
+  decide
 
 theorem eblif_reader_spec_partial (ts : List Tok) (hg : ∀ t ∈ ts, GoodTok t) (hb : ∀ t ∈ ts, t ≠ bsl)
     (ht : Terminated ts) : readB (printB ts) = (parseB ts >>= elabB) := by
